@@ -377,6 +377,53 @@ def _renumber(x, loff, boff):
     return x
 
 
+def _expand_combinators(mir, j, name, rec, skip):
+    """`opt.and_then(f)` / `opt.map(f)` / `res.and_then(f)` / `res.map(f)` with `f` a crate function passed by name are rewritten into the branch
+    they stand for (switch on the discriminant; on the Some / Ok edge a direct call of `f` with the payload), so that the call can be inlined
+    and its guards correlate with the paths that built the Option / Result"""
+    for b in range(len(j['blocks'])):
+        t = j['blocks'][b]['term']
+        if t['k'] != 'call' or t.get('target') is None or len(t.get('args', [])) != 2:
+            continue
+        callee = t['callee'] or t['raw']
+        kind = None
+        for pre, some, none, adt in (('std::option::Option::<T>::', 'Some', 'None', 'std::option::Option'), ('std::result::Result::<T, E>::', 'Ok', 'Err', 'std::result::Result')):
+            if callee in (pre + 'and_then', pre + 'map'):
+                kind = (callee[len(pre):], some, none, adt)
+        f = t['args'][1].get('fn') if isinstance(t['args'][1], dict) else None
+        if kind is None or f is None or f not in mir.bodies or f in rec or f in skip or f == name:
+            continue
+        recv = t['args'][0]
+        rp = recv.get('move') or recv.get('copy')
+        if rp is None:
+            continue
+        which, some, none, adt = kind
+        sp = t.get('span')
+        nl = len(j['locals'])
+        j['locals'].extend(['isize', 'payload', 'mapped'])
+        disc, payload, mapped = nl, nl + 1, nl + 2
+        nb = len(j['blocks'])
+        b_none, b_some, b_wrap = nb, nb + 1, nb + 2
+        j['blocks'][b]['stmts'].append({'lhs': {'l': disc, 'p': []}, 'rv': {'rk': 'discriminant', 'place': rp}, 'span': sp})
+        j['blocks'][b]['term'] = {'k': 'switch', 'discr': {'move': {'l': disc, 'p': []}}, 'targets': [[0 if some == 'Some' else 1, b_none]], 'otherwise': b_some, 'span': sp,
+                                  'expanded': callee}
+        if some == 'Some':
+            j['blocks'][b]['term']['targets'] = [[0, b_none]]
+        else:
+            j['blocks'][b]['term']['targets'] = [[1, b_none]]
+        # None / Err edge: the result is the empty variant (for Result the error is carried over)
+        none_ops = [] if none == 'None' else [{'move': {'l': rp['l'], 'p': rp['p'] + [{'downcast': 'Err'}, {'f': '0', 'i': 0, 'adt': adt, 'variant': 'Err'}]}}]
+        j['blocks'].append({'stmts': [{'lhs': t['dest'], 'rv': {'rk': 'aggregate', 'agg': f'adt:{adt}::{none}', 'fields': ['0'] if none_ops else [], 'ops': none_ops}, 'span': sp}],
+                            'term': {'k': 'goto', 'target': t['target']}})
+        pay_place = {'l': rp['l'], 'p': rp['p'] + [{'downcast': some}, {'f': '0', 'i': 0, 'adt': adt, 'variant': some}]}
+        call_dest = t['dest'] if which == 'and_then' else {'l': mapped, 'p': []}
+        j['blocks'].append({'stmts': [{'lhs': {'l': payload, 'p': []}, 'rv': {'rk': 'use', 'ops': [{'move': pay_place}]}, 'span': sp}],
+                            'term': {'k': 'call', 'raw': f, 'callee': f, 'generics': '[]', 'self_ty': '', 'indirect': False, 'args': [{'move': {'l': payload, 'p': []}}],
+                                     'dest': call_dest, 'target': t['target'] if which == 'and_then' else b_wrap, 'unwind': t.get('unwind'), 'span': sp}})
+        j['blocks'].append({'stmts': [{'lhs': t['dest'], 'rv': {'rk': 'aggregate', 'agg': f'adt:{adt}::{some}', 'fields': ['0'], 'ops': [{'move': {'l': mapped, 'p': []}}]}, 'span': sp}],
+                            'term': {'k': 'goto', 'target': t['target']}})
+
+
 def inlined(mir, name, depth=2, max_blocks=400, skip=()):
     """a Body for `name` in which the direct calls of non-recursive, non-closure crate functions are replaced by the callee's CFG
     (arguments assigned to the callee's parameter locals, returns assigned to the call's destination)"""
@@ -385,6 +432,7 @@ def inlined(mir, name, depth=2, max_blocks=400, skip=()):
     j = copy.deepcopy(src.j)
     cg = mir.call_graph()
     rec = {n for comp in mir.sccs() if len(comp) > 1 or comp[0] in cg[comp[0]] for n in comp}
+    _expand_combinators(mir, j, name, rec, skip)
     for _ in range(depth):
         changed = False
         nblocks0 = len(j['blocks'])
